@@ -11,12 +11,16 @@
      G2  T{a,b,c:U}  U{x,y}         T.default{a,b,c/default} T.tiny{a} T.ext{a,c/tiny};  U.default{x,y} U.tiny{x}
      G3  collection of G2's T       (every element projected alike)
      G4  T{a,n:T}  (recursive)      default{a,n/tiny}  tiny{a}
+     G5  T{a,o:U,p:U}               two attributes of the same nested result type with different views in one view:
+                                    T.default{a,o/tiny,p/default}  T.tiny{a}
+     G6  T{a,c:U declared with view tiny}   the view named in a parent view overrides the one on the attribute:
+                                    T.default{a,c/default}  T.tiny{a}  T.ext{a,c}  (c under ext: the attribute's own view, tiny)
 *)
 EXTENDS Integers, Sequences, FiniteSets, TLC
 
 CONSTANTS Deviations
 
-Graphs == {"G1", "G2", "G3", "G4"}
+Graphs == {"G1", "G2", "G3", "G4", "G5", "G6"}
 \* view table: <<type, view>> -> set of [attr, sub] where sub = "-" for a primitive attribute, else <<type, view>> of the nested rendering
 Prim(a) == [attr |-> a, sub |-> <<"-", "-">>]
 Nest(a, t, v) == [attr |-> a, sub |-> <<t, v>>]
@@ -28,16 +32,25 @@ ViewTable(g, t, v) ==
     [] g \in {"G2", "G3"} /\ t = "T" /\ v = "ext"     -> {Prim("a"), Nest("c", "U", "tiny")}
     [] g \in {"G2", "G3"} /\ t = "U" /\ v = "default" -> {Prim("x"), Prim("y")}
     [] g \in {"G2", "G3"} /\ t = "U" /\ v = "tiny"    -> {Prim("x")}
+    [] g = "G5" /\ t = "T" /\ v = "default" -> {Prim("a"), Nest("o", "U", "tiny"), Nest("p", "U", "default")}
+    [] g = "G5" /\ t = "T" /\ v = "tiny"    -> {Prim("a")}
+    [] g = "G6" /\ t = "T" /\ v = "default" -> {Prim("a"), Nest("c", "U", "default")}
+    [] g = "G6" /\ t = "T" /\ v = "tiny"    -> {Prim("a")}
+    [] g = "G6" /\ t = "T" /\ v = "ext"     -> {Prim("a"), Nest("c", "U", "tiny")}
+    [] g \in {"G5", "G6"} /\ t = "U" /\ v = "default" -> {Prim("x"), Prim("y")}
+    [] g \in {"G5", "G6"} /\ t = "U" /\ v = "tiny"    -> {Prim("x")}
     [] g = "G4" /\ t = "T" /\ v = "default" -> {Prim("a"), Nest("n", "T", "tiny")}
     [] g = "G4" /\ t = "T" /\ v = "tiny"    -> {Prim("a")}
     [] OTHER -> {}
-ViewsOf(g) == IF g \in {"G2", "G3"} THEN {"default", "tiny", "ext"} ELSE {"default", "tiny"}
+ViewsOf(g) == IF g \in {"G2", "G3", "G6"} THEN {"default", "tiny", "ext"} ELSE {"default", "tiny"}
 
 \* which optional attributes the service method set in the value it returns (a, x are required and always set)
 ValueSpace(g) ==
   CASE g = "G1" -> {{"a"}, {"a", "b"}}
     [] g \in {"G2", "G3"} -> {{"a"}, {"a", "b"}, {"a", "c", "c.x"}, {"a", "b", "c", "c.x", "c.y"}, {"a", "c", "c.x", "c.y"}}
     [] g = "G4" -> {{"a"}, {"a", "n", "n.a"}, {"a", "n", "n.a", "n.n", "n.n.a"}}
+    [] g = "G5" -> {{"a"}, {"a", "o", "o.x", "o.y", "p", "p.x", "p.y"}, {"a", "p", "p.x", "p.y"}, {"a", "o", "o.x", "o.y"}, {"a", "o", "o.x", "p", "p.x"}}
+    [] g = "G6" -> {{"a"}, {"a", "c", "c.x"}, {"a", "c", "c.x", "c.y"}}
 
 \* projection: the set of attribute paths of `val` that view (t, v) exposes
 RECURSIVE Proj(_, _, _, _, _, _)
